@@ -69,9 +69,14 @@ def context(events, preds):
     """events: the parsed trace events of one behaviour (ordinal n = index + 1); preds: its violations.
     Returns one context dict per C20 violation (None entries never occur; unknown situations give a bare context)."""
     quotes = {}
+    low = set()     # second code units of surrogate pairs (behaviours with characters outside the BMP)
     for n, e in enumerate(events, 1):
         if e.get("k") == "qloc" and e.get("outcome") == "ok" and (e.get("call") or {}).get("a") in ("quote", "link"):
             quotes[e["h"]] = (n, e)
+        for part in ("upd", "full", "emit"):
+            for u in (e.get(part) or {}).get("ins", []):
+                if u.get("w8") == 0 and u.get("kind") == "str":
+                    low.add(_t(u["id"]))
     out = []
     for p in preds:
         pred, line = p[0], p[1]
@@ -79,7 +84,7 @@ def context(events, preds):
         if not pred.startswith("C20_") or not (1 <= line <= len(events)):
             continue
         e = events[line - 1]
-        c = {"pred": pred, "line": line, "k": k}
+        c = {"pred": pred, "line": line, "k": k, "low": sorted(low)}
         r = h = None
         if e.get("k") == "unquote" and 1 <= k <= len(e.get("res", [])):
             x = e["res"][k - 1]
@@ -145,6 +150,10 @@ def _d1(c):
     if wlo == req or wlo not in dead or wlo not in b["lst"]:
         return False
     a, z = b["lst"].index(wlo), b["lst"].index(req)
+    # the requested unit may be the second code unit of a surrogate pair (exclusive start behind a character outside the
+    # BMP): the tombstones then directly precede the CHARACTER, i.e. its first code unit
+    if req in set(c.get("low") or []) and z > 0 and b["lst"][z - 1] == (req[0], req[1] - 1):
+        z -= 1
     if not (a < z and all(u in dead for u in b["lst"][a:z])):
         return False
     end_ok = q["eu"] or (q["j"] < len(vis) and q["whi"] == vis[q["j"]] and q["wea"] == q["ei"])
